@@ -66,7 +66,8 @@ def _validate_group(ctx, evs, path, label, gi):
                 elif e["e"] in ("free", "residue"):
                     livef.pop(e["id"], None)
             f = sorted(set(livef.values()))[0] if livef else f
-        found.append(("%s:%s:%s" % (label, f, kind), "%s: program %s, allocation #%d refused (%s): %s in/after %s: %s" % (
+        # the signature names the call and the kind of failure, not the build it was seen on (the same defect shows on every build)
+        found.append(("default:%s:%s" % (f, kind), "%s: program %s, allocation #%d refused (%s): %s in/after %s: %s" % (
             label, child["prog"], child["k"], {0: "none", 1: "once", 2: "this and all later"}[child["mode"]], kind, f, json.dumps(ev)[:200]), p))
         start += j + 1
     return found
